@@ -20,8 +20,8 @@ func init() { Checks["C20"] = CheckC20 }
 // D(input) = deepest nesting level at which a string containing a backslash occurs.
 const (
 	c20K    = 1024 // bytes per input byte for the generic decoders
-	c20KBuf = 64   // bytes per input byte for Valid / SkipValue / SkipValueFast / Handle*Values (they only own a stack)
-	c20Kd   = 2
+	c20KBuf = 80   // bytes per input byte for Valid / SkipValue / SkipValueFast / Handle*Values (they only own a stack)
+	c20Kd   = 3
 	c20C    = 8 << 10
 )
 
@@ -186,6 +186,16 @@ func c20Shape(family string, p []int64) []byte {
 			fmt.Fprintf(&sb, `"k\n%dA":{"in\tner":%d}`, i, i)
 		}
 		sb.WriteByte('}')
+	case "escape-run": // p: n, kind — ONE string value holding a long run of escapes
+		n, k := g(0), g(1)
+		unit := []string{`\n`, `\u00e9`, `\ud83d\ude00`, `\"`, `\\`, "é", `a\u0041`, `\ud800`}[k%8]
+		pre := []string{"", `\"`, `x\"y`, `\n`, "plain text "}[(k/8)%5]
+		sb.WriteString(`{"k":["`)
+		sb.WriteString(pre)
+		for i := 0; i < n; i++ {
+			sb.WriteString(unit)
+		}
+		sb.WriteString(`",1]}`)
 	case "small": // p: which
 		smalls := []string{`{"a":{},"b":{},"c":{},"d":{},"e":{}}`, `[1]`, `null`, `[1,`, `{"a":`, `[1]x`, `{}`, `[]`, `[[],[],[]]`, `"str"`, `1`, ``, `{"a":[{}]}`, `[{"a":1}]`, `[1e400]`, `{"a"}`}
 		return []byte(smalls[g(0)%len(smalls)])
